@@ -150,6 +150,7 @@ m("c10-socks-udp-reply-unlabelled", "src/common/socks.rs", "                IpAd
 m("c10-quic-dispatcher-waits-for-full-queue", "src/common/quic.rs", "                    match session.try_send(frame) {\n                        Ok(()) => {}\n                        Err(TrySendError::Full(_)) => {", "                    match session.send(frame).await.map_err(|e| TrySendError::Closed(e.0)) {\n                        Ok(()) => {}\n                        Err(TrySendError::Full(_)) => {", ["C10"])
 m("c10-datagram-session-waits-for-both-directions", "src/copy.rs", "                ctx.write().await.set_state(ContextState::ClientShutdown);\n                if datagram_session {\n                    break;\n                }", "                ctx.write().await.set_state(ContextState::ClientShutdown);\n                if datagram_session && false {\n                    break;\n                }", ["C10"])
 m("c13-h11c-udp-session-uses-idle", "src/common/h11c.rs", "                .set_udp_idle_timeout()\n", "", ["C13"])
+m("c10-ephemeral-udp-sockets-reuseaddr", "src/common/udp.rs", "        if !ephemeral {\n            setsockopt(fd, ReuseAddr, &true)?;", "        if !ephemeral || true {\n            setsockopt(fd, ReuseAddr, &true)?;", ["C10"])
 m("c10-enforce-udp-client-ignored", "src/listeners/socks.rs", "                let remote = if self.enforce_udp_client {", "                let remote = if self.enforce_udp_client && false {", [])
 m("c18-lb-cycles-accepted", "src/connectors/loadbalance.rs", "        for _ in 0..MAX_NESTING {\n            level = level", "        for _ in 0..MAX_NESTING {\n            if true {\n                return Ok(());\n            }\n            level = level", ["C18"])
 m("c18-no-tree-depth-limit", "milu/src/parser.rs", "const MAX_DEPTH: usize = 256;", "const MAX_DEPTH: usize = 1 << 30;", ["C18"])
